@@ -115,6 +115,8 @@ def build_classes(specs):
     def act(beh, cname, dunder):
         if beh[0] == "val":
             return beh[1]
+        if beh[0] == "lit":
+            return eval(beh[1], {"__builtins__": {}}, {})
         if beh[0] == "tag":
             return (cname, dunder, beh[1])
         if beh[0] == "ni":
@@ -220,11 +222,11 @@ BAD_CONV = [None, "bad", 1.5, -3, [1], 2]
 def gen_conv_beh(rng, dunder):
     r = rng.random()
     if dunder in ("__iter__", "__reversed__"):
-        return rng.choice([["iter", [1, 2]], ["iter", []], ["val", 5], ["raise", "TypeError"], ["ni"]])
+        return rng.choice([["iter", [1, 2]], ["iter", []], ["lit", "5"], ["raise", "TypeError"], ["ni"]])
     if r < 0.6:
-        return ["val", rng.choice(GOOD_CONV[dunder])]
+        return ["lit", repr(rng.choice(GOOD_CONV[dunder]))]
     if r < 0.8:
-        return ["val", rng.choice(BAD_CONV)]
+        return ["lit", repr(rng.choice(BAD_CONV))]
     if r < 0.9:
         return ["ni"]
     return ["raise", rng.choice(sorted(EXC))]
